@@ -774,7 +774,7 @@ pub fn gen_image(src: &mut Src, k: &Knobs, bits: u32, with_subs: bool) -> ImageS
         be,
         data,
         at: pos(src, k),
-        center: src.draw(4) == 0,
+        center: src.draw(4) == 3,
         subs,
     }
 }
